@@ -25,4 +25,13 @@ PROPS = {
         "assumptions": ["element types have a lawful total order (Std.TransOrd, Std.LawfulEqOrd); instances exist for Nat, Char, String", "Rust's byte order on UTF-8 strings equals Lean's code-point order (confirmed by the correspondence on boundary code points)"],
         "explanation": "C20: OH/Props/C20.lean proves, for every lawful ordered element type, that From<Vec> yields exactly the distinct elements strictly increasing, union of sorted operands is sorted and is exactly the set union (and, via uniqueness of sorted lists, commutative/associative/idempotent as list equalities), contains = membership, find_first_following = least element not below the argument, and that every value constructible through the API is sorted (Reachable).",
     },
+    "C14": {
+        "suites": ["c14"],
+        "trivial_tags": ["empty"],
+        "rule": "histories in postfix notation over a stack of schedules (new / from_ranges / addition), raw ranges read through the verif_ranges hook and the iteration of every intermediate schedule; exhaustive: all histories of <= 3 operations over single- and two-range inputs with endpoints on a 5-6 point grid and the three kinds; plus 5k random long histories (up to 12 schedules of up to 6 ranges, touching/nested/empty/inverted ranges, comments with duplicates, a stream reaching beyond 24:00) and the three range helpers; thorough: 4 operations / 8-point grid sample + 200k random; distinct = distinct operation line; trivial = final schedule empty",
+        "exhaustive": {"quick": False, "thorough": False},
+        "trusted_base": TB_COMMON + ["modelled, not verified: sort_unstable_by_key (stable insertion sort; with the repaired max-merge the result does not depend on the order of equal starts)", "hook: Schedule::verif_ranges (cfg opening_hours_verif) exposes the raw vector"],
+        "assumptions": ["comments well-formedness theorems are parametrised by the union laws proved in C20"],
+        "explanation": "C14: OH/Props/C14.lean proves for arbitrary inputs: from_ranges is WF (disjoint, increasing, non-empty) and covers exactly the union of its inputs; insert/addition keep WF and give every minute the kind of the most recently added covering schedule (additions_state, folded over any finite sequence); every API-reachable schedule is WF/within/coalesced; iteration never hits the pre_yield assert, tiles 00:00-24:00, alternates kinds and shows closed in holes.",
+    },
 }
